@@ -18,6 +18,14 @@ Two parts, both exhaustive over a stated finite space and executed on the real
     components in raster order -- the multi-threshold step discards it, so the
     per-parent marker numbers have a hole; such parents appear before AND after
     other deblendable parents (full product of the core alphabet).
+    The RELATIVE GEOMETRY of two parents is an axis too: parents of different
+    tiles have disjoint bounding boxes; "group" tiles hold two 2-blends whose
+    minimal bounding boxes (the cutouts the per-source step works on, and the
+    regions the results are written back to) are not disjoint: mutually
+    interlocking (X2, diagonal streaks), nested (L2: an L-shaped parent whose
+    box contains a compact parent) and abutting (A2: two parents that share a
+    border and interlock).  Both parents of a group split, in both processing
+    orders (numbering x labels argument).
 
 (B) schedules: the module-level names ``ProcessPoolExecutor`` / ``as_completed``
     of ``photutils.segmentation.deblend`` are replaced by an in-process
@@ -28,7 +36,10 @@ Two parts, both exhaustive over a stated finite space and executed on the real
     the caller's list", "ascending label order", "raster order" and "completion
     order" are four different orders) x nproc in {2, 3, N} are executed and the
     result (.data, dtype, .labels, deblend maps, info, emitted warnings) must
-    be bit-identical to nproc=1.  A free-running conformance pass uses the real
+    be bit-identical to nproc=1.  The schedule scenes include every group tile
+    (alone, and before / after / between parents of other tiles), because the
+    pool path cuts the parents out BEFORE and writes the children back AFTER
+    all tasks ran, which is where overlapping cutouts matter.  A free-running conformance pass uses the real
     spawn pool behind the same recording and requires (i) the same result as
     serial and (ii) the same API trace shape as the stub run -- i.e. the stub
     models everything the code uses of the executor.
@@ -60,8 +71,13 @@ RULE = ('(B) schedules: for every schedule scene x configuration x nproc in {2,3
         'sub-product over the Python representation of labels= (numpy scalar, 1-element list, tuple, int64 and int32 '
         'array); frames = every single parent '
         'type, ALL ordered pairs (thorough: also all ordered triples) over the core alphabet {single, 2-blend, 3-blend, '
-        '2-blend with a sub-npixels spike that leaves a hole in its marker numbers}, and designed frames; non-trivial '
-        'when at least one parent is split; cases are distinct product indices')
+        '2-blend with a sub-npixels spike that leaves a hole in its marker numbers}, every group tile (two 2-blends whose '
+        'minimal bounding boxes are NOT disjoint: X2 mutually interlocking, L2 nested, A2 sharing a border) alone and '
+        'before / after a parent of another tile, and designed frames; non-trivial '
+        'when at least one parent is split; cases are distinct product indices; the counters '
+        '*_later_split_parent_box_contains_pixels_of_earlier_split_parent measure (on the label arrays) the cases in which '
+        'the cutout of a split parent contains pixels of a parent that was split before it in the processing order '
+        '(B: the schedule scenes contain every group tile as well)')
 ASSUMPTIONS = ['the parent process observes the pool only through the order in which as_completed yields futures and '
                'through pickled arguments/results; worker processes share no state (tasks are pure functions of their '
                'pickled arguments) -- the stub runs each task from its pickle and returns a pickle round trip',
@@ -71,6 +87,13 @@ ASSUMPTIONS = ['the parent process observes the pool only through the order in w
                'skimage watershed, scipy.ndimage.label and numpy are trusted only through the refinement invariants',
                'scenes are at most 5 parents of at most 3 components on 18x26 tiles; > 200 markers (nmarkers fallback) '
                'is not reached',
+               'relative geometry of two parents: disjoint bounding boxes (different tiles), or one of three designed '
+               'group tiles of two 2-blends -- X2 (each box contains pixels of the other parent, no contact), L2 (box of '
+               'the first contains the second completely, not vice versa), A2 (shared border, 4- and 8-adjacent, boxes '
+               'interlock); the stated relation is verified from the pixels by selftest/test_c06_schedules.py (several '
+               'seeds and the corners of the generic ranges) and measured at run time by the *_box_contains_* counters; '
+               'three or more parents with pairwise overlapping boxes, a parent enclosed by a closed ring, and overlapping '
+               'boxes of parents with 3 components or spikes are not enumerated',
                'sub-npixels components inside a parent are: one hot pixel (first / middle / last marker component in '
                'raster order, below or above the source maximum), one 2x2 block (npixels-1 pixels), and one seed-generic '
                'sparse noise image; that the hot-pixel parents really produce the stated marker pattern at the first '
@@ -99,15 +122,24 @@ CORE = ('S', 'B2', 'B3t', 'H2a')            # H2a: its marker numbers have a hol
 CORE_PAIRS_THOROUGH = CORE + ('H2m',)
 
 
+GROUP_NEIGHBOURS_QUICK = ('B2',)
+GROUP_NEIGHBOURS_THOROUGH = ('B2', 'H2a')
+
+
 def refine_frames(tier):
     singles = [(t,) for t in S.TYPES]
+    # group tiles (two parents with non-disjoint bounding boxes): alone, and with a parent of another tile before / after
+    groups = [(g,) for g in S.GROUP_TYPES]
+    nb = GROUP_NEIGHBOURS_QUICK if tier == 'quick' else GROUP_NEIGHBOURS_THOROUGH
+    groups += [f for g in S.GROUP_TYPES for t in nb for f in ((g, t), (t, g))]
     if tier == 'quick':
         pairs = [p for p in itertools.product(CORE, repeat=2)]
-        frames = singles + pairs
+        frames = singles + pairs + groups
         frames += [('F', 'B2', 'P'), ('B3f', 'Y'), ('H2m', 'N2'), ('H2q', 'H3a')]
     else:
         pairs = [p for p in itertools.product(CORE_PAIRS_THOROUGH, repeat=2)]
-        frames = singles + pairs
+        frames = singles + pairs + groups
+        frames += [('L2', 'X2'), ('A2', 'X2'), ('L2', 'A2')]
         frames += [t for t in itertools.product(CORE, repeat=3)]
         frames += [('F', 'B2', 'P'), ('B3f', 'Y'), ('B3f', 'T'), ('D', 'B2'), ('Y', 'B3r', 'F'),
                    ('B3t', 'Y', 'B2', 'S'), ('B2', 'B3f', 'S', 'T', 'B2'),
@@ -123,10 +155,36 @@ def refine_numberings(tier):
 def refine_variants(tier, frame):
     if tier == 'quick':
         return ('pos', 'nonpos')
-    if len(frame) >= 3:
+    if S.nparents(frame) >= 3:
         # the per-parent algorithm axes are covered by the 1- and 2-parent frames; >= 3 parents add bookkeeping
-        return ('pos',) if set(frame) <= set(CORE) or len(frame) >= 5 else ('pos', 'nonpos')
+        return ('pos',) if set(frame) <= set(CORE) or S.nparents(frame) >= 5 else ('pos', 'nonpos')
     return ('pos', 'nonpos', 'quantity')
+
+
+# parameter product of a refinement frame.  Frames that combine a GROUP tile with parents of other tiles (>= 3 parents)
+# add bookkeeping (label offsets of three or four parents x geometry), not per-parent algorithm paths -- those are crossed
+# with the geometry in full by the group tile alone -- and get a stated sub-product
+GROUP_REDUCED = list(itertools.product((4, 32), (0.001, 0.3), MODES, CONN, RELABEL, NPIXELS))
+GROUP_MIX_PARAMS = {
+    'quick': [(nl, 0.001, mode, conn, rl, npx) for (nl, mode, conn) in ((4, 'linear', 8), (32, 'exponential', 4))
+              for rl in RELABEL for npx in NPIXELS],
+    'thorough': list(itertools.product((4, 32), (0.001,), ('exponential', 'linear'), CONN, RELABEL, NPIXELS)),
+}
+
+
+def is_group_mix(frame):
+    return any(t in S.GROUP for t in frame) and len(frame) >= 2
+
+
+def refine_params(tier, frame):
+    """-> list of (nlevels, contrast, mode, connectivity, relabel, npixels)."""
+    if is_group_mix(frame):
+        return GROUP_MIX_PARAMS[tier]
+    if tier == 'quick' and any(t in S.GROUP for t in frame):
+        # quick, group tile alone: nlevels = 1 and contrast = 0 / 1 (contrast 1 returns a copy before any per-source work)
+        # crossed with the geometry are left to the thorough tier (full product there)
+        return GROUP_REDUCED
+    return list(itertools.product(NLEVELS, CONTRAST, MODES, CONN, RELABEL, NPIXELS))
 
 
 def labels_arg(labels, kind):
@@ -228,8 +286,16 @@ SCHED_SCENES = {
     's5b': (('B3t', 'B2', 'F', 'B2', 'B3r'), 5),
     's3e': (('H2a', 'B2', 'H2m'), 5),           # spike parents: per-task child numbers come from marker images with a hole
     's4d': (('N2', 'H2a', 'B3t', 'H2q'), 5),
+    # group tiles: two parents whose cutouts overlap (the pool path cuts all parents out first and writes back last)
+    'g2x': (('X2',), 5),                        # mutually interlocking boxes
+    'g2l': (('L2',), 5),                        # nested: the box of the first parent contains the second
+    'g2a': (('A2',), 5),                        # parents share a border, boxes interlock
+    'g3x': (('B2', 'X2'), 5),                   # group after / before a parent of another tile
+    'g3l': (('L2', 'B3t'), 5),
+    'g3a': (('H2a', 'A2'), 1),                  # npixels = 1: the spike of H2a is a legitimate marker
+    'g4x': (('L2', 'X2'), 5),                   # two groups
 }
-SCHED_QUICK = ['s2a', 's2b', 's3a', 's3b', 's3d', 's3c', 's3e', 's4a', 's4b']
+SCHED_QUICK = ['s2a', 's2b', 'g2x', 'g2l', 'g2a', 's3a', 's3b', 's3d', 's3c', 's3e', 'g3x', 's4a', 's4b']
 SCHED_THOROUGH = list(SCHED_SCENES)
 SCHED_NUMBERINGS = ('consec', 'gaps', 'reversed')
 SCHED_VARIANTS = ('pos', 'nonpos', 'mixed')
@@ -245,7 +311,7 @@ def sched_param_sets(tier):
 
 def _sched_params_for(scene, tier):
     ps = sched_param_sets(tier)
-    return ps[:2] if len(SCHED_SCENES[scene][0]) >= 5 else ps
+    return ps[:2] if S.nparents(SCHED_SCENES[scene][0]) >= 5 else ps
 
 
 def sched_subsets(labs, tier='thorough'):
@@ -293,7 +359,8 @@ def dtype_labels(dtype, offset, n):
 
 REAL_QUICK = [('s2a', 2), ('s3b', 3), ('s4b', 2)]
 REAL_THOROUGH = [('s2a', 2), ('s2b', 3), ('s3a', 2), ('s3b', 3), ('s4a', 3), ('s4b', 2), ('s5a', 3), ('s5b', 2),
-                 ('s4c', 3), ('s3c', 2), ('s5a', 2), ('s5b', 3), ('s3e', 2), ('s4d', 3)]
+                 ('s4c', 3), ('s3c', 2), ('s5a', 2), ('s5b', 3), ('s3e', 2), ('s4d', 3),
+                 ('g2x', 2), ('g2l', 3), ('g3a', 3), ('g4x', 2)]
 
 
 # ===========================================================================
@@ -406,6 +473,36 @@ def _requested(seg, labels):
     return {int(x) for x in np.atleast_1d(labels)}
 
 
+_REL = {}
+
+
+def _relations(seg):
+    hit = _REL.get(id(seg))
+    if hit is None or hit[0] is not seg:
+        _REL.clear()
+        hit = _REL[id(seg)] = (seg, S.bbox_relations(seg))
+    return hit[1]
+
+
+def _geometry_counters(acc, prefix, frame, seg, labels, info):
+    """Vacuity guards of the relative-geometry axis, measured on the label arrays:
+    the cutout (minimal bounding box) of a parent that was split contains pixels
+    of a parent that was split EARLIER in the processing order (the order of the
+    labels argument; ascending for None); a split parent touches another segment."""
+    if info is None or not info['deblended'] or not any(t in S.GROUP for t in frame):
+        return
+    rel = _relations(seg)
+    split = set(info['deblended'])
+    order = sorted(_requested(seg, None)) if labels is None else [int(x) for x in np.atleast_1d(labels)]
+    pos = {l: i for i, l in enumerate(order)}
+    if any(a in split and b in split and pos[a] < pos[b] for (b, a) in rel['box_contains']):
+        acc.counters[prefix + '_later_split_parent_box_contains_pixels_of_earlier_split_parent'] += 1
+    if any(a in split or b in split for (a, b) in rel['adjacent']):
+        acc.counters[prefix + '_split_parent_shares_a_border_with_another_segment'] += 1
+    if any(a in split and b in split for (a, b) in rel['adjacent']):
+        acc.counters[prefix + '_two_split_parents_share_a_border'] += 1
+
+
 def _check_refinement(acc, case, seg, p, res, frame, tag=''):
     """Apply the set-partition oracle to one executed call.  -> info or None."""
     conn = p['connectivity']
@@ -466,9 +563,10 @@ def _refine_case(acc, frame, numb, variant, p, seed, built=None):
         # vacuity guard of the spike sub-space: a parent whose marker numbers have a hole (npixels > spike size) is
         # split in the same call as at least one other parent (child numbers of different parents must not collide)
         if nsplit >= 2 and p['npixels'] > 1:
-            spiked = {l for l, t in zip(labs, frame) if t in S.SPIKE_TYPES}
+            spiked = {l for l, t in zip(labs, S.parent_types(frame)) if t in S.SPIKE_TYPES}
             if spiked & set(info['deblended']):
                 acc.counters['cases_spike_parent_split_together_with_another_parent'] += 1
+        _geometry_counters(acc, 'cases', frame, seg, p['labels'], info)
 
 
 def _run_refine(acc, unit, tier, seed):
@@ -476,12 +574,13 @@ def _run_refine(acc, unit, tier, seed):
     built = S.build(frame, numb, 'pos' if variant == 'quantity' else variant, seed)
     labs = built[2]
     for sub, kind in subsets(labs, _subset_tier(tier, frame)):
-        for nl, ct, mode, conn, rl, npx in itertools.product(NLEVELS, CONTRAST, MODES, CONN, RELABEL, NPIXELS):
+        for nl, ct, mode, conn, rl, npx in refine_params(tier, frame):
             p = {'labels': sub, 'labels_kind': kind, 'nlevels': nl, 'contrast': ct, 'mode': mode, 'connectivity': conn,
                  'relabel': rl, 'npixels': npx}
             _refine_case(acc, frame, numb, variant, p, seed, built)
-    # representation sub-space of labels= (reduced parameter product)
-    if variant == 'pos':
+    # representation sub-space of labels= (reduced parameter product; consumed before any per-source work: not crossed
+    # with the group + other-tile frames)
+    if variant == 'pos' and not is_group_mix(frame):
         for sub, kind in repr_subsets(labs):
             for (nl, mode, conn), ct, rl, npx in itertools.product(REPR_PARAMS, REPR_CONTRAST, RELABEL, NPIXELS):
                 p = {'labels': sub, 'labels_kind': kind, 'nlevels': nl, 'contrast': ct, 'mode': mode, 'connectivity': conn,
@@ -540,6 +639,7 @@ def _sched_config(acc, scene, numb, variant, p, nprocs, seed, only_perm=None):
             nontriv = perm != tuple(range(n)) and nsplit >= 2
             if nsplit >= 2 and _unsorted(p['labels']):
                 acc.counters['schedules_non_ascending_labels_with_two_parents_split'] += 1
+            _geometry_counters(acc, 'schedules', frame, seg, p['labels'], info)
             acc.case(nontrivial=nontriv, sample=case if acc.evaluations % 1499 == 5 else None)
             acc.counters['schedules'] += 1
             if fifo_feasible(perm, nproc):
@@ -600,7 +700,7 @@ def _expected_tasks(scene, p, seed):
 
 def _sched_configs(scene, tier):
     frame, npx = SCHED_SCENES[scene]
-    labs0 = S.numbering('consec', len(frame))
+    labs0 = S.numbering('consec', S.nparents(frame))
     for (nl, mode, conn) in _sched_params_for(scene, tier):
         for ct in SCHED_CONTRAST:
             for rl in RELABEL:
@@ -612,7 +712,7 @@ def _sched_configs(scene, tier):
 def _run_schedule(acc, unit, tier, seed):
     scene, numb, variant = unit['scene'], unit['numbering'], unit['variant']
     frame, npx = SCHED_SCENES[scene]
-    labs = S.numbering(numb, len(frame))
+    labs = S.numbering(numb, S.nparents(frame))
     for cfg in _sched_configs(scene, tier):
         if cfg['relabel'] != unit['relabel'] or cfg['contrast'] != unit['contrast']:
             continue
@@ -793,18 +893,18 @@ def plan(tier, seed):
     for scene, nproc in (REAL_QUICK if tier == 'quick' else REAL_THOROUGH):
         units.append({'kind': 'real', 'scene': scene, 'nproc': nproc})
     for scene in scenes[1:]:
-        if len(SCHED_SCENES[scene][0]) >= 5:
+        if S.nparents(SCHED_SCENES[scene][0]) >= 5:
             continue
         units += sched_units(scene)
     units.append({'kind': 'finder'})
     units.append({'kind': 'dtype'})
     frames = refine_frames(tier)
-    for frame in sorted(frames, key=lambda f: -len(f)):
+    for frame in sorted(frames, key=lambda f: -S.nparents(f)):
         for numb in refine_numberings(tier):
             for variant in refine_variants(tier, frame):
                 units.append({'kind': 'refine', 'frame': list(frame), 'numbering': numb, 'variant': variant})
     for scene in scenes[1:]:
-        if len(SCHED_SCENES[scene][0]) >= 5:
+        if S.nparents(SCHED_SCENES[scene][0]) >= 5:
             units += sched_units(scene)
     return units
 
@@ -869,6 +969,27 @@ def describe(tier, seed):
                              'H3a': '3-blend triangle + hot pixel above the peaks: hole at the first separating level, '
                                     'renumbered when the third peak separates at a later level',
                              'N2': '2-blend + seed-generic sparse positive noise image inside the segment'},
+            'group_tiles (two parents in one tile, minimal bounding boxes NOT disjoint)': {
+                'X2': 'two parallel diagonal streaks, each a 2-blend, separated by background: each box contains pixels of the '
+                      'other parent',
+                'L2': 'L-shaped 2-blend (one peak per arm) + compact 2-blend in the empty quadrant of its box: the box of the '
+                      'first parent contains the second parent completely, the box of the second nothing of the first',
+                'A2': 'chain of four peaks cut by the label array along an oblique line into two 2-blends: the parents share a '
+                      'border (4- and 8-adjacent) and each box contains pixels of the other'},
+            'group_frames': {'alone': [[g] for g in S.GROUP_TYPES],
+                             'with_a_parent_of_another_tile_before_and_after':
+                                 list(GROUP_NEIGHBOURS_QUICK if tier == 'quick' else GROUP_NEIGHBOURS_THOROUGH),
+                             'two_groups': [] if tier == 'quick' else [['L2', 'X2'], ['A2', 'X2'], ['L2', 'A2']],
+                             'parameter_product': 'group alone: '
+                                                  + ('nlevels in (4, 32) x contrast in (0.001, 0.3) x mode x connectivity x relabel '
+                                                     'x npixels (the full product is in the thorough tier)' if tier == 'quick'
+                                                     else 'the full product')
+                                                  + '; frames with >= 2 tiles that contain a group (no labels-representation '
+                                                  'sub-space): full labels-argument alphabet x numbering x variant x '
+                                                  + ('(nlevels, mode, connectivity) in [(4, linear, 8), (32, exponential, 4)] x '
+                                                     'contrast 0.001 x relabel x npixels' if tier == 'quick' else
+                                                     'nlevels in (4, 32) x contrast 0.001 x mode in (exponential, linear) x '
+                                                     'connectivity x relabel x npixels')},
             'core_alphabet_for_pairs' + ('' if tier == 'quick' else '_and_triples'):
                 list(CORE) if tier == 'quick' else {'pairs': list(CORE_PAIRS_THOROUGH), 'triples': list(CORE)},
             'refine_frames': [list(f) for f in frames],
